@@ -34,7 +34,7 @@ const (
 // Op is applied after the stalled peer's allowance is exhausted.
 type Op struct {
 	Peer string `json:"peer"` // "S" (stalled) or "H" (healthy)
-	K    string `json:"k"`    // new newext cancelmsg updatemsg apipause apiunpause apiunpauseext apiupdate apicancel tick
+	K    string `json:"k"`    // new newext cancelmsg updatemsg apipause apiunpause apiunpauseext apiupdate apicancel tick disconnect (S only)
 	R    int    `json:"r"`
 }
 
@@ -66,7 +66,7 @@ func gen(t *rapid.T) Case {
 	c.BlockExt = rapid.IntRange(0, 2).Draw(t, "blockext") == 0
 	n := rapid.IntRange(2, 10).Draw(t, "nops")
 	hk := []string{"new", "new", "newext", "cancelmsg", "updatemsg", "apipause", "apiunpause", "apiunpauseext", "apiupdate", "apicancel", "tick"}
-	sk := []string{"new", "cancelmsg", "cancelmsg", "apipause", "apipause", "apiunpause", "apicancel", "apicancel", "newext", "updatemsg", "apiunpauseext", "apiupdate"}
+	sk := []string{"new", "cancelmsg", "cancelmsg", "apipause", "apipause", "apiunpause", "apicancel", "apicancel", "newext", "updatemsg", "apiunpauseext", "apiupdate", "disconnect"}
 	hasH := false
 	for i := 0; i < n; i++ {
 		op := Op{R: rapid.IntRange(0, 3).Draw(t, "r")}
@@ -305,6 +305,11 @@ func judge(c Case) *pbt.Verdict {
 					hCancelled[op.R%cnt] = true
 				}
 				api(name, func() error { return rs.GS.Cancel(w.Ctx, id) })
+			case "disconnect":
+				// the stalled peer's connection breaks: its stalled send fails (further sends to it stall again)
+				if op.Peer == "S" {
+					w.Net.Disconnect(scen.RespID, peerS)
+				}
 			case "tick":
 				time.Sleep(150 * time.Millisecond)
 			}
